@@ -267,7 +267,7 @@ class Run:
         warnings.simplefilter('error' if w.get('warn_as_error') else 'ignore')
         rng = random.Random(tr.get('sched_seed', 0))
         sim = Sim(rng, policy=tr.get('policy'), schedule=tr.get('schedule'), instr=bool(w.get('instr')),
-                  max_steps=tr.get('max_steps', 4_000_000), keep_events=keep_events,
+                  max_steps=tr.get('max_steps', 4_000_000 if tr.get('tier', 'quick') == 'quick' else 14_000_000), keep_events=keep_events,
                   atomic_files=() if w.get('instr_poly') else ('polynomial.py',))
         self.sim = None                 # wrappers are not pre-emption points during set-up
         wf = [dict(f) for f in w.get('wrapper_faults', [])]
